@@ -289,7 +289,11 @@ fn observe(prop: &str, s: &St, viol: &mut Vec<Viol>) {
         if own != b || own.len() != n {
             out.push(("BitVec::to_owned", "to_owned() differs".to_string()));
         }
-        for j in [0usize, n / 2, n.wrapping_sub(1)] {
+        let lw = (n / 64) * 64;
+        let mut cand = vec![0usize, n / 2, n.wrapping_sub(1), lw.wrapping_sub(1), lw, lw.wrapping_sub(64), 63, 64];
+        cand.sort();
+        cand.dedup();
+        for j in cand {
             if j < n {
                 let mut d = fresh.clone();
                 d.set(j, !m[j]);
